@@ -7,6 +7,7 @@ Driver for C11.  A block is
   end
 
 zones   `-` | zone`|`zone…      zone = <name token>`=`handlers      handlers = `-` | h`,`h…
+                                 (`-<name token>=-` removes that origin again: `Catalog::remove`)
 h       `mem/<0|1>`             in-memory zone, AXFR denied / allowed
         `scr/<p|s|e>/<flow>/<flow|->/<update rcode>/<n|o|z|eRC>`   scripted handler
 flow    `S` | `Co` | `Cr` (referral) | `Cz` | `Ce<rc>` | `Bo` | `Br` | `Bz` | `Be<rc>`
@@ -23,6 +24,7 @@ zl      `-` | <zone>.<handler>:<flow>,…   for every in-memory handler: what it
 import HickoryVerif.Drv.Proto
 import HickoryVerif.Model.ServerGate
 import HickoryVerif.Model.ServerRequest
+import HickoryVerif.Model.SendQueue
 
 namespace HickoryVerif.Drv.C11
 open HickoryVerif HickoryVerif.Drv HickoryVerif.ServerGate
@@ -54,6 +56,9 @@ def parseLRes (s : String) : Option LRes :=
   match s.toList with
   | ['o'] => some .ok
   | ['r'] => some .referral
+  -- `Ok(records)` that cannot be encoded: for the model (which describes responses whose encoding
+  -- succeeds) an `Ok`; the harness runs such cases implementation-vs-oracle only
+  | ['u'] => some .ok
   | ['z'] => some .zone
   | 'e' :: rc => (String.ofList rc).toNat?.map .err
   | _ => none
@@ -95,10 +100,19 @@ def parseZone (idx : Nat) (s : String) : Option Zone :=
   | [n, hs] => do pure { idx := idx, origin := ← parseName n, handlers := ← parseHandlers hs }
   | _ => none
 
+/-- a zone entry `-<name token>=…` removes that origin again (`Catalog::remove`) -/
+def applyZone (cat : Catalog) (p : String × Nat) : Option Catalog :=
+  match p.1.toList with
+  | '-' :: rest => do
+    let z ← parseZone p.2 (String.ofList rest)
+    pure (removeZone cat z.origin)
+  | _ => do
+    let z ← parseZone p.2 p.1
+    pure (upsert cat z)
+
 def parseZones (s : String) : Option Catalog :=
-  if s == "-" then some [] else do
-    let zs ← (s.splitOn "|").zipIdx.mapM (fun p => parseZone p.2 p.1)
-    pure (zs.foldl upsert [])
+  if s == "-" then some [] else
+    (s.splitOn "|").zipIdx.foldlM applyZone []
 
 def showCall : Call → String
   | .search z h => s!"s{z}.{h}"
@@ -148,6 +162,42 @@ def substZl (cat : Catalog) (zl : List ((Nat × Nat) × Flow)) : Catalog :=
         | some f => { hd with search := f }
         | none => hd }
 
+/-! `udp <recv> <send>`: datagrams through the real `UdpStream` on a scripted socket.
+recv  items joined by `,`: `d/<src>/<port>/<hex>` a datagram, `p` a pause (`Pending` + wake),
+      `x` a receive error
+send  results of successive `poll_send_to` calls: `o` ok, `e` error, `E` error that repeats for the
+      same message (EMSGSIZE-like), `w` `Pending` (+ wake); `-` = none; exhausted = ok
+answer: per datagram `a` (its response was handed to the socket), `f` (its send failed: dropped),
+`-` (no response is owed) -/
+
+def parseSendScript (s : String) : Option (List SendQueue.SendRes) :=
+  if s == "-" then some [] else
+  s.toList.mapM fun c =>
+    match c with
+    | 'o' => some .ok
+    | 'e' => some .err
+    | 'E' => some .err
+    | 'w' => some .pending
+    | _ => none
+
+def parseDgram (s : String) : Option (Option (Ip × Bytes)) :=
+  match s.splitOn "/" with
+  | ["d", src, _port, h] => do pure (some (← parseIp src, ← parseHex h))
+  | ["p"] => some none
+  | ["x"] => some none
+  | _ => none
+
+def udpAnswer (cfg : Config) (recv : List (Option (Ip × Bytes))) (script : List SendQueue.SendRes) :
+    String :=
+  let dgrams := recv.filterMap id
+  -- a response is owed unless the gate drops the message
+  let owed := dgrams.map fun (ip, buf) => (match serve cfg ip buf with | .drop => false | _ => true)
+  let idx := (List.range dgrams.length).filter fun i => owed.getD i false
+  let fin := SendQueue.pollAll (script.length + idx.length + 1) script ⟨idx, [], []⟩
+  ",".intercalate ((List.range dgrams.length).map fun i =>
+    if fin.sent.contains i then "a" else if fin.dropped.contains i then "f"
+    else if fin.queue.contains i then "q" else "-")
+
 def step (s : State) (toks : List String) : State × String :=
   match toks with
   | ["begin", zones, deny, allow] =>
@@ -160,6 +210,18 @@ def step (s : State) (toks : List String) : State × String :=
     | some cfg, some ip, some buf, some zl =>
       (s, showGate buf (serve { cfg with catalog := substZl cfg.catalog zl } ip buf))
     | _, _, _, _ => (s, "bad-op")
+  | ["cat", _proto, _src, bytes, _body, _edns, zl] =>
+    -- `Request::from_bytes` + `Catalog::handle_request`, no gate in front
+    match s, parseHex bytes, parseZl zl with
+    | some cfg, some buf, some zl =>
+      (s, match catalogEntry (substZl cfg.catalog zl) buf with
+          | none => "err"
+          | some g => showGate buf g)
+    | _, _, _ => (s, "bad-op")
+  | ["udp", recv, send] =>
+    match s, (recv.splitOn ",").mapM parseDgram, parseSendScript send with
+    | some cfg, some r, some sc => (s, "udp " ++ udpAnswer cfg r sc)
+    | _, _, _ => (s, "bad-op")
   | _ => (s, "bad-op")
 
 end HickoryVerif.Drv.C11
